@@ -623,3 +623,182 @@ def P32(m, R):
     R.viol(f, node, 'the seam is merged when %s -- both lists are compared by value, but the settings that run on are the receiver\'s and keep the precedence they have in '
                     'its active list, which is the order in which they *started*, not the order of its stop list: a = "abcd" with blue on [2,4) then red on [0,4) (active: red, blue), '
                     'b = "xy" with blue then red (red on top); a + b reports 31;34 (blue on top) for "xy"' % short(cmp_), construct=cons)
+
+
+# ----------------------------------------------------------------------------------------------------------------------
+def _point_names(m, g):
+    """local names of g that hold a point of some table: values of TABLE.items()/values(), TABLE[...] reads, the 2nd element of the iterator's triple"""
+    ro = m.roles
+    out = []
+
+    class _S:
+        def add(self, nm):
+            out.append((nm, cur[0]))
+    cur = [None]
+    out_add = _S()
+    for n in g.walk():
+        cur[0] = n
+        if isinstance(n, (ast.For, ast.comprehension)):
+            it, tg = n.iter, n.target
+            cn = call_name(it)
+            recv = it.func.value if isinstance(it, ast.Call) and isinstance(it.func, ast.Attribute) else None
+            if cn == 'items' and isinstance(recv, ast.Attribute) and recv.attr == ro.TABLE and isinstance(tg, ast.Tuple) and len(tg.elts) == 2 \
+                    and isinstance(tg.elts[1], ast.Name):
+                out_add.add(tg.elts[1].id)
+            elif cn == 'values' and isinstance(recv, ast.Attribute) and recv.attr == ro.TABLE and isinstance(tg, ast.Name):
+                out_add.add(tg.id)
+            elif cn == ro.ITERATOR and isinstance(tg, ast.Tuple) and len(tg.elts) == 3 and isinstance(tg.elts[1], ast.Name):
+                out_add.add(tg.elts[1].id)
+        elif isinstance(n, ast.Assign) and len(n.targets) == 1 and isinstance(n.targets[0], ast.Name):
+            v = n.value
+            if isinstance(v, ast.Subscript) and isinstance(v.value, ast.Attribute) and v.value.attr == ro.TABLE:
+                out_add.add(n.targets[0].id)
+            elif isinstance(v, ast.Call) and call_name(v) in ('get', 'pop') and isinstance(v.func, ast.Attribute) and isinstance(v.func.value, ast.Attribute) \
+                    and v.func.value.attr == ro.TABLE:
+                out_add.add(n.targets[0].id)
+    return out
+
+
+def _is_point_name(pts, name_node, holder):
+    """the name is read where a binding of it to a point is in force: inside the loop / comprehension that binds it, or after the assignment"""
+    for nm, scope in pts:
+        if nm != name_node.id:
+            continue
+        if isinstance(scope, ast.For):
+            if any(x is name_node for st in scope.body for x in ast.walk(st)):
+                return True
+        elif isinstance(scope, ast.comprehension):
+            par = getattr(scope, '_parent', None)
+            if holder is scope or (par is not None and any(x is name_node for x in ast.walk(par))):
+                return True
+        elif getattr(name_node, 'lineno', 0) > getattr(scope, 'lineno', 0):
+            return True
+    return False
+
+
+def _truth_atoms(t):
+    if isinstance(t, ast.BoolOp):
+        for v in t.values:
+            yield from _truth_atoms(v)
+    elif isinstance(t, ast.UnaryOp) and isinstance(t.op, ast.Not):
+        yield from _truth_atoms(t.operand)
+    elif isinstance(t, ast.Call) and call_name(t) == 'bool' and len(t.args) == 1:
+        yield from _truth_atoms(t.args[0])
+    else:
+        yield t
+
+
+@rule('P33', 'empty-point hygiene (assume / guarantee): code that tells an empty point from an absent one -- a rendering that sends only what starts at a point, a copy '
+             'that skips empty points -- is right only while remove_formatting deletes every point it empties', floor=2)
+def P33(m, R):
+    ro = m.roles
+    T = ro.TABLE
+    f = m.fn('AnsiString.remove_formatting')
+    selfn = f.self_name
+    tbl = '%s.%s' % (selfn, T)
+    # ---- guarantee: the clean-up of remove_formatting
+    status, site = 'missing', f.node
+    for n in f.walk():
+        if isinstance(n, ast.For) and isinstance(n.target, (ast.Name, ast.Tuple)):
+            dels = [x for x in ast.walk(n) if isinstance(x, ast.Delete) and any(isinstance(t_, ast.Subscript) and norm(t_.value) == tbl for t_ in x.targets)]
+            if not dels:
+                continue
+            if any(isinstance(x, ast.For) and x is not n for x in ast.walk(n)):
+                continue
+            site = n
+            it = n.iter
+            lits = isinstance(it, (ast.Tuple, ast.List, ast.Set))
+            reads_tbl = any(isinstance(x, ast.Attribute) and x.attr == T and is_name(x.value, selfn) for x in ast.walk(it))
+            if isinstance(it, ast.Name):
+                # a list of keys collected before: complete if it was built from the whole table
+                src = [a_ for a_ in f.walk() if isinstance(a_, ast.Assign) and isinstance(a_.targets[0], ast.Name) and a_.targets[0].id == it.id]
+                reads_tbl = bool(src) and all(any(isinstance(x, ast.Attribute) and x.attr == T for x in ast.walk(a_.value)) for a_ in src)
+                lits = bool(src) and all(isinstance(a_.value, (ast.Tuple, ast.List, ast.Set)) and not any(
+                    isinstance(x, ast.Attribute) and x.attr == T for x in ast.walk(a_.value)) for a_ in src)
+            sliced = any(isinstance(x, ast.Subscript) and isinstance(x.slice, ast.Slice) for x in ast.walk(it))
+            if reads_tbl and not lits and not sliced and call_name(it) in ('list', 'tuple', 'sorted', 'keys', 'items', 'set', 'frozenset', None):
+                status = 'complete'
+            elif lits or not reads_tbl:
+                status = 'partial'
+            else:
+                status = 'unknown'
+            break
+        if isinstance(n, ast.Assign) and norm(n.targets[0]) == tbl and isinstance(n.value, ast.DictComp) and n.value.generators and \
+                call_name(n.value.generators[0].iter) == 'items' and n.value.generators[0].ifs:
+            status, site = 'complete', n
+            break
+    # ---- reliance (a): what to_str sends at a point
+    g = m.fn('AnsiString.to_str')
+    rel = []
+    lp = next((n for n in g.walk() if isinstance(n, ast.For) and call_name(n.iter) == ro.ITERATOR and isinstance(n.target, ast.Tuple) and len(n.target.elts) == 3), None)
+    if lp is None:
+        R.undecided(g, g.node, 'the rendering loop over the table was not found', construct='to_str codes at a point')
+    else:
+        pt, act = norm(lp.target.elts[1]), norm(lp.target.elts[2])
+        joins = [n for n in ast.walk(lp) if isinstance(n, ast.Call) and call_name(n) == 'join' and len(n.args) == 1 and isinstance(n.args[0], ast.Name)]
+        codes = {j.args[0].id for j in joins}
+        start_only = []
+        for n in ast.walk(lp):
+            if isinstance(n, ast.Assign) and isinstance(n.targets[0], ast.Name) and n.targets[0].id in codes:
+                vals = [n.value]
+                while any(isinstance(v, ast.IfExp) for v in vals):
+                    vals = [w for v in vals for w in ((v.body, v.orelse) if isinstance(v, ast.IfExp) else (v,))]
+                for v in vals:
+                    srcs = []
+                    for x in ast.walk(v):
+                        if isinstance(x, ast.IfExp):
+                            srcs += [x.body, x.orelse]
+                    srcs = srcs or [v]
+                    for s_ in srcs:
+                        nm = names_in(s_)
+                        if n.targets[0].id in nm or act in nm:
+                            continue
+                        if any(isinstance(x, ast.Attribute) and x.attr == ro.START and norm(x.value) == pt for x in ast.walk(s_)):
+                            start_only.append((n, s_))
+        if start_only:
+            rel.append((g, start_only[0][0], 'to_str codes at a point',
+                        'to_str sends, at a point where nothing ends, only the settings that start there (%s): at a point that holds nothing the parameter list is empty, '
+                        'and ESC[m is a reset -- every style still active is switched off' % short(start_only[0][1])))
+        else:
+            R.ok(g, lp, 'what is sent at a point is built from the active list (an empty point re-sends it, which shows the same)', construct='to_str codes at a point')
+    # ---- reliance (b): truthiness of a point outside the sites that delete empty points
+    declared = {'AnsiString.remove_formatting', 'AnsiString.__iadd__', '%s.__bool__' % ro.POINT}
+    n_truth = 0
+    for h in m.funcs.values():
+        pts = _point_names(m, h)
+        tests = []
+        for n in h.walk():
+            if isinstance(n, (ast.If, ast.While, ast.IfExp, ast.Assert)):
+                tests.append((n, n.test))
+            elif isinstance(n, ast.comprehension):
+                tests += [(n, t_) for t_ in n.ifs]
+        for holder, t in tests:
+            for a_ in _truth_atoms(t):
+                is_pt = (isinstance(a_, ast.Name) and _is_point_name(pts, a_, holder)) or \
+                    (isinstance(a_, ast.Subscript) and isinstance(a_.value, ast.Attribute) and a_.value.attr == T)
+                if not is_pt:
+                    continue
+                n_truth += 1
+                if h.qual in declared:
+                    continue
+                where = holder if hasattr(holder, 'lineno') else t
+                rel.append((h, where, '%s point truthiness' % h.qual,
+                            '%s treats a point that holds nothing differently from one that holds something (`%s`): the result differs from that of the same operation '
+                            'done where empty points are kept (in place / by the other class), in table and in rendering' % (h.qual, short(t))))
+    # ---- verdict
+    single = [norm(t_.slice) for x in f.walk() if isinstance(x, ast.Delete) for t_ in x.targets if isinstance(t_, ast.Subscript) and norm(t_.value) == tbl]
+    wit = 'remove_formatting deletes emptied points only at %s (L%d): "abcdef" bold over 2..4, then remove bold over 1..5 leaves empty points at 2 and 4' % (
+        short(site.iter) if isinstance(site, ast.For) else ('the keys %s' % ', '.join(single) if single else 'no place at all'), getattr(site, 'lineno', 0))
+    if status == 'complete':
+        R.ok(f, site, 'remove_formatting deletes every point it leaves empty (clean-up over the whole table); %d truthiness tests of points, %d reliance site(s) are safe'
+             % (n_truth, len(rel)), construct='remove_formatting clean-up')
+        for h, n, cons, msg in rel:
+            R.ok(h, n, 'relies on points not being empty; guaranteed by the clean-up of remove_formatting', construct=cons)
+    elif status == 'unknown':
+        R.undecided(f, site, 'clean-up loop over %s: whether it covers the whole table is not decided' % short(site.iter), construct='remove_formatting clean-up')
+    else:
+        if not rel:
+            R.ok(f, site, 'emptied points may stay in the table (clean-up %s), and nothing tells an empty point from an absent one: to_str re-sends the active list there'
+                 % ('over ' + short(site.iter) if isinstance(site, ast.For) else 'absent'), construct='remove_formatting clean-up')
+        for h, n, cons, msg in rel:
+            R.viol(h, n, msg + '; ' + wit, construct=cons)
